@@ -1226,7 +1226,7 @@ pub fn check(cfg: &Cfg) -> Result<i32, Harness> {
         coverage: json!({
             "evaluations": evaluations,
             "distinct_nontrivial": keys.len(),
-            "rule": "PROCESS STRATUM: each run draws (swarm) an option subset in a random documented spelling, a filter from a family with input/inputs/halt/error/limit/label, an input stream (stdin or 1-3 files; JSON/raw/raw0/CSV/TSV/CBOR/YAML/XML/TOML; valid or truncated) and a stratum: plain, benign (stdin chunking 1 byte..piece-aligned, EINTR, short/EINTR writes, mmap failure forcing the fallback read path with short reads: outcome must equal the model exactly), stall (stdin stops after k complete values), readfail, writefail (ENOSPC/EIO/EPIPE on the n-th stdout write), stderrfail, openfail. distinct = distinct (stratum, filter, option signature, exit) tuples; trivial = empty stdout with exit 0. LIBRARY STRATUM: see library_stratum; distinct adds distinct (format, filter, chunk size, -n/-s) tuples of cases with a non-trivial schedule.",
+            "rule": "PROCESS STRATUM: each run draws (swarm) an option subset in a random documented spelling, a filter from a family with input/inputs/halt/error/limit/label, an input stream (stdin or 1-3 files; JSON/raw/raw0/CSV/TSV/CBOR/YAML/XML/TOML; valid or truncated) and a stratum: plain, benign (stdin chunking 1 byte..piece-aligned, EINTR, short/EINTR writes, mmap failure forcing the fallback read path with short reads: outcome must equal the model exactly), stall (stdin stops after k complete values), readfail, writefail (ENOSPC/EIO/EPIPE on the n-th stdout write), stderrfail, openfail. distinct = distinct (stratum, filter, option signature, exit) tuples; trivial = empty stdout with exit 0. LIBRARY STRATUM: see library_stratum; distinct adds distinct (format, filter, chunk size, -n/-s) tuples of cases with a non-trivial schedule. One input file in twelve, and one --slurpfile/--rawfile argument in eight, is a named pipe whose producer has written its bytes and hangs up at the reader's first read (size 0, no mmap, no seek); the model reads it like a regular file. Filters include debug, debug(msg) and stderr.",
             "runs_by_stratum": pick("runs:"),
             "library_stratum": {"runs_by_input_format": pick("lib_runs:"), "schedule_faults": pick("lib_fault:"), "inconclusive": lib_inconclusive,
                 "what": "read::read over a fault-injecting BufRead (chunks of 1..64 bytes, Interrupted, read error at the end), data::run with input/inputs, write::write into a sink with short and interrupted writes; bytes written and outcome class compared with the same reference model; main.rs and cli.rs are not exercised here"},
